@@ -327,14 +327,16 @@ class ExprMixin:
         if isinstance(cont, (VList, VStr, VBytes)):
             i = self.as_int(idx)
             n = z3.Length(cont.e)
-            self.oblige(
-                st, z3.And(i >= -n, i < n), f"index-in-range@{e.lineno}:{ast.unparse(e)[:50]}", kind="exception", line=e.lineno
-            )
             si = z3.simplify(i)
             if z3.is_int_value(si) and si.as_long() < 0:
-                i = n + i
-            elif not z3.is_int_value(si):
-                i = z3.If(i < 0, n + i, i)
+                self.oblige(st, -si.as_long() <= n, f"index-in-range@{e.lineno}:{ast.unparse(e)[:50]}", kind="exception", line=e.lineno)
+                i = n + si
+            else:
+                # symbolic indices are required to be non-negative (the package never indexes with a negative variable)
+                self.oblige(
+                    st, z3.And(i >= 0, i < n), f"index-in-range@{e.lineno}:{ast.unparse(e)[:50]}", kind="exception", line=e.lineno
+                )
+                i = si
             if isinstance(cont, VList):
                 val = elem_value(cont.elem_ty, cont.e[i])
                 if not self.in_spec:
@@ -682,10 +684,23 @@ class ExprMixin:
             e = ast.GeneratorExp(elt=call, generators=e.generators[:1])
             ast.fix_missing_locations(e)
         g = e.generators[0]
-        n, getter, seqv = self.eval_iterable(g.iter, st)
         j = z3.Int(fresh_name("q"))
+        if (
+            isinstance(g.iter, ast.Call)
+            and isinstance(g.iter.func, ast.Name)
+            and g.iter.func.id == "range"
+            and isinstance(g.target, ast.Name)
+        ):
+            # all(P(k) for k in range(lo, hi)): bind k itself
+            args = [self.as_int(self.eval(a, st)) for a in g.iter.args]
+            lo, hi = (z3.IntVal(0), args[0]) if len(args) == 1 else (args[0], args[1])
+            rng = z3.And(lo <= j, j < hi)
+            n = None
+            getter = lambda i, s: VInt(i)  # noqa
+        else:
+            n, getter, seqv = self.eval_iterable(g.iter, st)
+            rng = z3.And(0 <= j, j < n)
         stj = st.copy()
-        rng = z3.And(0 <= j, j < n)
         saved = self.in_spec
         self.in_spec += 1
         try:
@@ -701,13 +716,29 @@ class ExprMixin:
         # assumptions made while evaluating the body (e.g. comprehension axioms) are kept
         for extra in stj.pc[len(st.pc):]:
             st.pc.append(z3.ForAll([j], extra) if self.mentions(extra, j) else extra)
-        sn = z3.simplify(n)
-        if z3.is_int_value(sn) and sn.as_long() <= 64:
+        sn = z3.simplify(n) if n is not None else None
+        if sn is not None and z3.is_int_value(sn) and sn.as_long() <= 64:
             insts = [z3.substitute(z3.Implies(cond, body) if is_all else z3.And(cond, body), (j, z3.IntVal(k))) for k in range(sn.as_long())]
             return VBool((z3.And(insts) if is_all else z3.Or(insts)) if insts else z3.BoolVal(is_all))
+        # ground instances at the loop indices in scope: (forall k. P) == P(c) and (forall k. P); likewise for exists.
+        # Logically redundant, but it gives the solver the witnesses / instances it would otherwise have to guess.
+        cands = []
+        seen = set()
+        pool = list(st.locals.items()) + [("_i", VInt(c)) for c in getattr(self, "witness_cands", [])]
+        for nm, v in pool:
+            if nm.startswith("_i") and isinstance(v, VInt):
+                for c in (v.e, v.e - 1):
+                    c = z3.simplify(c)
+                    if c.get_id() not in seen:
+                        seen.add(c.get_id())
+                        cands.append(c)
         if is_all:
-            return VBool(z3.ForAll([j], z3.Implies(cond, body)))
-        return VBool(z3.Exists([j], z3.And(cond, body)))
+            q = z3.ForAll([j], z3.Implies(cond, body))
+            insts = [z3.substitute(z3.Implies(cond, body), (j, c)) for c in cands[:8]]
+            return VBool(z3.And(insts + [q])) if insts else VBool(q)
+        q = z3.Exists([j], z3.And(cond, body))
+        insts = [z3.substitute(z3.And(cond, body), (j, c)) for c in cands[:8]]
+        return VBool(z3.Or(insts + [q])) if insts else VBool(q)
 
     def mentions(self, e, v):
         seen = set()
